@@ -52,8 +52,12 @@ import (
 //	    a write at all: the data was put into the store by an earlier engine with expiry off); mode busy:
 //	    unrelated inserts / updates / deletes on collections without TTL index; modes sess-commit /
 //	    sess-abort: an explicit session transaction holds the engine's write token across the cutoff (expiry
-//	    must resume afterwards; the committed one also inserts an expired document); mode close:
-//	    Engine.Close before or after the cutoff (must return, nothing may change afterwards);
+//	    must resume afterwards; the committed one also inserts an expired document; plain client writes queue up
+//	    behind it); mode contend: three more groups of documents expire (a pass really deletes every 100 ms)
+//	    while a holder keeps session transactions open for 100..800 ms and three plain writers queue up behind
+//	    it — the expiry goroutine as one writer among many, with the Property C04 monitors of
+//	    ttlclock_clients.go (also active in busy and sess-*); mode close: Engine.Close before or after the
+//	    cutoff (must return, nothing may change afterwards);
 //	(4) check against the wall-clock oracle. A document is classified per snapshot (t0 before, t1 after
 //	    reading Engine.Catalog()): X = min over the TTL indexes of its collection and the date leaves under
 //	    the index field of (date + expireAfterSeconds); must-be-present if X = never or t1 < X − 60 ms;
@@ -62,13 +66,15 @@ import (
 //	    everything in between is a boundary document and gets NO verdict. A must-be-gone document that is
 //	    still present is re-checked after another 10 intervals + 400 ms before it is reported.
 //
-// Witness classes (all Property C19): ttl-clock:kept-expired, ttl-clock:stalled-after-session,
+// A document that must be present but is gone while the change log has neither a delete event nor its insert event
+// was not removed by the expiry: it is a lost acknowledged write (Property C04, ttl-clock:ack-lost; see
+// ttlclock_clients.go).
+//
+// Witness classes (Property C19): ttl-clock:kept-expired, ttl-clock:stalled-after-session,
 // ttl-clock:removed-fresh, ttl-clock:non-date-removed, ttl-clock:non-ttl-collection-touched,
 // ttl-clock:pass-incomplete (exact, from the commit log of the wrapped store: a pass that removed something left
 // a document that was already expired when the pass began), ttl-clock:delete-events (≠ exactly one delete event
-// per removed document, or a delete event for a kept or unknown document), ttl-clock:interval-ignored (no
-// scheduler stall and no slow store call seen, yet the median removal latency of the three groups of "soon"
-// documents exceeds 3 intervals + 200 ms), ttl-clock:index-incoherent (index members ≠ documents [matching the partial
+// per removed document, or a delete event for a kept or unknown document), ttl-clock:index-incoherent (index members ≠ documents [matching the partial
 // filter]), ttl-clock:active-after-close, ttl-clock:close-hang, ttl-clock:panic, ttl-clock:setup-failed.
 // The delete events' own wallTime gives a second, tight "removed-fresh" check (wallTime < X − 5 ms) and the
 // latency tags (wallTime − X of the last "soon" removals, in intervals).
@@ -81,7 +87,7 @@ const (
 	tcNever         = int64(math.MaxInt64)
 )
 
-var tcModes = []string{"timed", "canary", "busy", "sess-commit", "sess-abort", "close", "reopen"}
+var tcModes = []string{"timed", "canary", "busy", "sess-commit", "sess-abort", "close", "reopen", "contend"}
 
 type tcParams struct {
 	Mode   string
@@ -133,6 +139,7 @@ type tcDoc struct {
 	explicit bool  // deleted by the scenario itself (expected: exactly one delete event)
 	dontCare bool  // no verdict (e.g. the TTL index was dropped too close to the cutoff)
 	soon     bool
+	client   bool // inserted by an acknowledged client write during the case (see ttlclock_clients.go)
 }
 
 type tcScn struct {
@@ -158,6 +165,9 @@ type tcScn struct {
 	errs        int // errors reported through Options.ExpireErrors
 	errText     string
 	seq         int
+
+	counters []tcCounterSpec // shared counters of the client writers
+	ops      []*tcOp         // client operations (ttlclock_clients.go)
 }
 
 func tcMs(t time.Time) int64 { return t.UnixMilli() }
@@ -239,7 +249,11 @@ func (t *tcStore) lastSlow() int64 {
 	return t.slowEnd
 }
 
-func (s *tcScn) viol(witness, what, detail string) {
+func (s *tcScn) viol(witness, what, detail string) { s.violP("C19", witness, what, detail) }
+
+// violP reports a violation of the given property (C19: the expiry itself; C04: acknowledged client writes
+// that compete with the expiry goroutine).
+func (s *tcScn) violP(prop, witness, what, detail string) {
 	s.mu.Lock()
 	defer s.mu.Unlock()
 	key := witness + "\x00" + detail
@@ -255,7 +269,10 @@ func (s *tcScn) viol(witness, what, detail string) {
 		return
 	}
 	s.tags = append(s.tags, "VIOLATION:"+witness)
-	s.viols = append(s.viols, run.Violation{Property: "C19", What: what, Witness: witness, Req: s.p.String(), Detail: clip(detail, 1500)})
+	if prop != "C19" {
+		s.tags = append(s.tags, "VIOLATION/"+prop+"/"+s.p.Mode+":"+witness)
+	}
+	s.viols = append(s.viols, run.Violation{Property: prop, What: what, Witness: witness, Req: s.p.String(), Detail: clip(detail, 1500)})
 }
 
 func (s *tcScn) tag(t string) {
@@ -389,6 +406,21 @@ func (s *tcScn) buildLayout(soonRound bool) map[*tcColl][]*tcDoc {
 
 	c := add(&tcColl{h: h("ta", "e1"), ttls: []tcTTL{{f, 1}}})
 	table(c, f, 1, nil)
+	if !soonRound {
+		// shared counters for the client writers (never expire): in TTL collections with a far-future date, a
+		// non-date and no TTL field, and in collections without TTL index
+		for i, cc := range []struct {
+			h lungo.Handle
+			v interface{}
+		}{{h("ta", "e1"), tcDT(s.base.Add(1000 * time.Hour))}, {h("tb", "plain"), "not a date"}, {h("ta", "e0"), nil}, {h("ta", "plain"), tcDT(s.base.Add(-time.Hour))}, {h("tc", "w"), tcDT(s.base.Add(-time.Hour))}} {
+			doc := bson.D{{Key: "_id", Value: "ctr#" + strconv.Itoa(i)}}
+			if cc.v != nil {
+				doc = append(doc, bson.E{Key: f, Value: cc.v})
+			}
+			doc = append(doc, bson.E{Key: "cnt", Value: int32(0)}, bson.E{Key: "last", Value: ""}, bson.E{Key: "u", Value: int32(9000 + i)})
+			s.counters = append(s.counters, tcCounterSpec{h: cc.h, doc: doc})
+		}
+	}
 	if soonRound {
 		// the very last document to expire, alone (more than one interval after all the others): a pass
 		// that removes exactly one document
@@ -482,6 +514,31 @@ func (s *tcScn) buildLayout(soonRound bool) map[*tcColl][]*tcDoc {
 	// third database: target of the unrelated writes
 	c = add(&tcColl{h: h("tc", "w"), plain: []string{"n"}})
 	table(c, f, 1, nil)
+
+	// the counters go into their collections with round A
+	for _, cs := range s.counters {
+		if soonRound {
+			break
+		}
+		for _, cl := range s.colls {
+			if cl.h == cs.h {
+				out[cl] = append(out[cl], s.track(cl, "counter", cs.doc, false))
+			}
+		}
+	}
+	// mode contend: more groups of documents that expire during the case (every 100 ms a pass really deletes)
+	if soonRound && s.p.Mode == "contend" {
+		for _, cl := range s.colls {
+			if len(cl.ttls) != 1 || cl.dropTTL || strings.Contains(cl.ttls[0].field, ".") || cl.unique != "" {
+				continue
+			}
+			cut := s.base.Add(-time.Duration(cl.ttls[0].secs) * time.Second)
+			for g, off := range []time.Duration{400, 300, 200} {
+				doc := bson.D{{Key: "_id", Value: s.newID("soon-g" + strconv.Itoa(g))}, {Key: f, Value: tcDT(cut.Add(soon - off*time.Millisecond))}}
+				out[cl] = append(out[cl], s.track(cl, "soon-g"+strconv.Itoa(g), doc, true))
+			}
+		}
+	}
 	return out
 }
 
@@ -588,10 +645,12 @@ func (s *tcScn) insertAll(ctx context.Context) error {
 // ---- snapshots and the oracle -----------------------------------------------------------------------
 
 type tcSnap struct {
-	t0, t1  int64
-	slowEnd int64
-	cat     *lungo.Catalog
-	present map[lungo.Handle]map[string]bool
+	deleted  map[lungo.Handle]map[string]int // delete events per document in the snapshot's change log
+	inserted map[lungo.Handle]map[string]int // insert events
+	t0, t1   int64
+	slowEnd  int64
+	cat      *lungo.Catalog
+	present  map[lungo.Handle]map[string]bool
 }
 
 func (s *tcScn) snapshot() tcSnap {
@@ -610,6 +669,26 @@ func (s *tcScn) snapshot() tcSnap {
 			}
 		}
 		sn.present[h] = m
+	}
+	sn.deleted, sn.inserted = map[lungo.Handle]map[string]int{}, map[lungo.Handle]map[string]int{}
+	if ns := cat.Namespaces[lungo.Oplog]; ns != nil {
+		for _, ev := range ns.Documents.List {
+			op, _ := bsonkit.Get(ev, "operationType").(string)
+			m := sn.deleted
+			if op == "insert" {
+				m = sn.inserted
+			} else if op != "delete" {
+				continue
+			}
+			db, _ := bsonkit.Get(ev, "ns.db").(string)
+			coll, _ := bsonkit.Get(ev, "ns.coll").(string)
+			id, _ := bsonkit.Get(ev, "documentKey._id").(string)
+			h := lungo.Handle{db, coll}
+			if m[h] == nil {
+				m[h] = map[string]int{}
+			}
+			m[h][id]++
+		}
 	}
 	return sn
 }
@@ -665,6 +744,11 @@ func (s *tcScn) judge(sn tcSnap, phase string) (kept []*tcDoc, soonFresh, soonBo
 				when = fmt.Sprintf("expires %d ms after the snapshot", d.x-sn.t1)
 			}
 			switch {
+			case sn.deleted[d.h][d.id] == 0 && sn.inserted[d.h][d.id] == 0 && s.p.Mode != "reopen":
+				// the change log knows neither a delete nor the insert itself: not an expiry removal but a write
+				// that was acknowledged and then overwritten by a writer that started from an older catalog
+				// (mode reopen: the engine under test has no client writes and possibly an empty log)
+				s.violP("C04", "ttl-clock:ack-lost", "an acknowledged insert is neither in the state nor in the change log any more", where+" ("+when+")")
 			case !d.ttlColl:
 				s.viol("ttl-clock:non-ttl-collection-touched", "a document of a collection without TTL index was removed by the periodic expiry", where)
 			case !d.hasDate:
@@ -1118,7 +1202,7 @@ func ttlclockCase(p tcParams) (c run.Case) {
 			s.viol("ttl-clock:setup-failed", "dropping the TTL index failed", err.Error())
 			return
 		}
-	} else {
+	} else if p.Mode != "contend" {
 		time.Sleep(3*s.ivl + 60*time.Millisecond)
 	}
 	s.tag("passes:" + passes)
@@ -1150,16 +1234,33 @@ func ttlclockCase(p tcParams) (c run.Case) {
 	case "timed", "canary", "reopen":
 		tcSleepUntil(deadline) // completely idle: not a single call into the engine
 	case "busy":
+		// one client writer with acknowledged plain writes on the TTL collections themselves, next to the
+		// unrelated writes
+		join := s.startClients(ctx, tcClientSpec{plain: 1, until: last + 120})
 		busyWrites = s.busyUntil(ctx, deadline)
+		join()
 		s.tag("busy-writes:" + tcBucket(busyWrites, 20, 60, 150))
 	case "sess-commit", "sess-abort":
 		holdEnd := last + 80 + int64(p.Bits>>40%200)
-		if err := s.session(ctx, p.Mode == "sess-commit", holdEnd); err != nil {
+		// plain writes queue up behind the session's token hold (they start 30 ms after it)
+		join := s.startClients(ctx, tcClientSpec{plain: 2, delay: 30 * time.Millisecond, until: holdEnd + 60})
+		err := s.session(ctx, p.Mode == "sess-commit", holdEnd)
+		join()
+		if err != nil {
 			s.viol("ttl-clock:setup-failed", "the session transaction failed", err.Error())
 			return
 		}
 		s.mu.Lock()
 		deadline = s.blockEnd + s.slack() + 30
+		s.mu.Unlock()
+		tcSleepUntil(deadline)
+	case "contend":
+		// the expiry goroutine as one writer among many: a holder keeps session transactions open for 100..800 ms
+		// across the expiry moments, three plain writers queue up behind it, every 100 ms documents expire
+		join := s.startClients(ctx, tcClientSpec{plain: 3, holder: true, until: last + 100})
+		join()
+		s.mu.Lock()
+		deadline = max64(s.blockEnd, last) + s.slack() + 30
 		s.mu.Unlock()
 		tcSleepUntil(deadline)
 	case "close":
@@ -1213,18 +1314,18 @@ func ttlclockCase(p tcParams) (c run.Case) {
 			s.tag(fmt.Sprintf("latency:>10-intervals/%s/file=%v/iv=%d/lat=%dms", p.Mode, p.File, p.IvMs, lat))
 		}
 	}
-	// the ExpireInterval itself: the "soon" documents expire at three moments spread over 220 ms; when neither a
-	// scheduler stall nor a slow store call was seen, the median of the three removal latencies cannot exceed
-	// 3 intervals + 200 ms (measured on the unchanged code: never above 1 interval + 25 ms in 640 quiet cases
-	// on a loaded machine)
+	// the ExpireInterval itself, as a distribution tag: the "soon" documents expire at three moments spread over
+	// 220 ms; median of the three removal latencies (normally at most 1 interval + 25 ms)
 	if (p.Mode == "timed" || p.Mode == "canary" || p.Mode == "reopen" || p.Mode == "busy") && s.latGroups >= 3 && s.medGroupLat >= 0 {
 		quiet := s.stalls == 0 && s.store.slow == 0
 		late := s.medGroupLat > 3*int64(p.IvMs)+200
 		switch {
 		case late && quiet:
 			s.tag("median-latency:late/quiet")
-			s.viol("ttl-clock:interval-ignored", "on an undisturbed engine the expired documents waited far longer than the configured ExpireInterval for their removal",
-				fmt.Sprintf("%d groups of documents expiring at different moments; the median removal came %d ms after the expiry (ExpireInterval %d ms); no scheduler stall, no slow store call seen", s.latGroups, s.medGroupLat, p.IvMs))
+			// TAG ONLY: under a load average above 30 one case in about 3000 showed a median of 328 ms at an interval
+			// of 40 ms although the control goroutine saw no stall above 100 ms and no store call above 25 ms —
+			// a latency bound tighter than the must-be-gone rule cannot be made safe on a loaded machine
+			s.tag(fmt.Sprintf("median-latency:late/quiet/%s/file=%v/iv=%d/median=%dms", p.Mode, p.File, p.IvMs, s.medGroupLat))
 		case late:
 			s.tag("median-latency:late/stalls-seen")
 		case s.medGroupLat > int64(p.IvMs)+50:
@@ -1266,6 +1367,7 @@ func (s *tcScn) finalCheck(phase string) (removedSoon, total, gone int, latency 
 		}
 	}
 	latency = s.audit(sn)
+	s.auditClients(sn)
 	s.mu.Lock()
 	defer s.mu.Unlock()
 	for _, d := range s.docs {
@@ -1347,6 +1449,12 @@ func (s *tcScn) session(ctx context.Context, commit bool, holdEnd int64) error {
 		if _, err := s.coll(e1.h).InsertOne(sc, d2); err != nil {
 			return err
 		}
+		op := s.newOp(0, 0, "txn")
+		for i := range s.counters {
+			if err := s.inc(sc, op, i); err != nil {
+				return err
+			}
+		}
 		before := s.engine.Catalog()
 		tcSleepUntil(holdEnd)
 		if s.engine.Catalog() != before {
@@ -1356,6 +1464,7 @@ func (s *tcScn) session(ctx context.Context, commit bool, holdEnd int64) error {
 			if err := sc.CommitTransaction(sc); err != nil {
 				return err
 			}
+			s.ack(op)
 			now, seq := tcMs(time.Now()), s.store.count()
 			for _, d := range []*tcDoc{s.track(w, "sess", d1, false), s.track(e1, "sess", d2, false)} {
 				d.ready, d.readySeq = now, seq // the one in ta.e1 is already expired: the next pass must remove it
